@@ -112,7 +112,7 @@ func TestC06_Pairing(t *testing.T) {
 		_ = i
 		t.Run(si.Name, func(t *testing.T) {
 			// every shard works on every suite (pairings are the cost; 5 suites < shards)
-			rcheck(t, 480, 4800, func(t *rapid.T) { c06Case(t, ev, si) })
+			rcheck(t, 480, 14400, func(t *rapid.T) { c06Case(t, ev, si) })
 		})
 	}
 }
